@@ -648,6 +648,23 @@ theorem alive_of_find (H : HInv s fl) {e : Ent} (h : (find s.ss.ents e).isSome =
   | none => rw [hf] at h; cases h
   | some en => exact (H.live_facts (find_some_mem hf)).2.1
 
+/-- a handle that was issued has an ID inside the pool slice -/
+theorem issued_in (H : HInv s fl) {e : Ent} (hi : e ∈ s.issued) : e.id < s.w.pool.ents.length := by
+  obtain ⟨_, sl, hsl, _⟩ := H.ginv.issued_bound e hi
+  exact (List.getElem?_eq_some_iff.mp hsl).1
+
+/-- the targets a client can name (the zero entity or a handle it was given) have IDs inside the
+    pool slice -/
+theorem tgts_in (H : HInv s fl) {rels : Rels} (hx : tgtsExpr s rels = true) :
+    ∀ (r : RelID), r ∈ rels → r.target.id < s.w.pool.ents.length := by
+  intro r hr
+  have h1 := List.all_eq_true.mp hx r hr
+  rcases Bool.or_eq_true_iff.mp h1 with h2 | h2
+  · have h3 : r.target.id = 0 := by simpa [Ent.isZero] using h2
+    have := H.tinv.link.pool.len2
+    omega
+  · exact H.issued_in (of_decide_eq_true h2)
+
 /-- valid targets (specification) are zero or alive (model) -/
 theorem targets_alive (H : HInv s fl) {rels : Rels} (h : TargetsValid s.ss.ents rels) :
     ∀ (r : RelID), r ∈ rels → r.target.isZero = true ∨ s.w.alive r.target = true := by
@@ -655,6 +672,18 @@ theorem targets_alive (H : HInv s fl) {rels : Rels} (h : TargetsValid s.ss.ents 
   rcases h r hr with h1 | h1
   · exact Or.inl h1
   · exact Or.inr (H.alive_of_find h1)
+
+/-- valid targets (specification) have IDs inside the pool slice -/
+theorem targets_in (H : HInv s fl) {rels : Rels} (h : TargetsValid s.ss.ents rels) :
+    ∀ (r : RelID), r ∈ rels → r.target.id < s.w.pool.ents.length := by
+  intro r hr
+  rcases h r hr with h1 | h1
+  · have h3 : r.target.id = 0 := by simpa [Ent.isZero] using h1
+    have := H.tinv.link.pool.len2
+    omega
+  · cases hf : find s.ss.ents r.target with
+    | none => rw [hf] at h1; cases h1
+    | some en => exact Pool.lt_of_slot (H.live_facts (find_some_mem hf)).2.2.2.2.2
 
 /-- two entries of the specification have different IDs -/
 theorem id_inj (H : HInv s fl) {x y : Ent} {en en' : Entry} (hx : (x, en) ∈ s.ss.ents)
